@@ -405,8 +405,40 @@ func execC16Suites(a []string) (string, string) {
 		res = "ok " + c16RenderEntries(c16FromLib(recs))
 	}
 	out := res + " " + idxS
+	// after a run in which the BMC failed to answer a list index: the SAME connection is asked again, the BMC now answering every
+	// index — a discovery keeps nothing from an earlier, failed one (seeds C16-B15 / C17-B15: a reassembly buffer kept on the connection)
+	againVerdict := ""
+	if fk != 0 {
+		fat = -1
+		idx = nil
+		var recs2 []ipmi.CipherSuiteRecord
+		var err2 error
+		ret2, p2 := c16Call(func() { recs2, err2 = bmc.RetrieveSupportedCipherSuites(e.ctx, e.t) })
+		res2 := ""
+		switch {
+		case !ret2:
+			res2, againVerdict = "hang", "the second RetrieveSupportedCipherSuites on the connection did not return"
+		case p2 != nil:
+			res2, againVerdict = "panic", fmt.Sprintf("second discovery on the connection: panic: %v", p2)
+		case err2 != nil && recs2 != nil:
+			res2 = "err-with-partial-list"
+		case err2 != nil:
+			res2 = "err"
+		default:
+			res2 = "ok " + c16RenderEntries(c16FromLib(recs2))
+		}
+		out += " again=" + res2 + " idx=" + c16Ints(idx, ",", "-")
+		if againVerdict == "" && ps == 16 && len(data) < 1024 {
+			if want, note := c16Expected(data, recsArg); note == "" && res2 != want {
+				againVerdict = fmt.Sprintf("after a failed discovery the next one on the same connection gives %q, the records served give %q", res2, want)
+			}
+		}
+	}
 	if badReq != "" {
 		return out, badReq
+	}
+	if againVerdict != "" {
+		return out, againVerdict
 	}
 	// reference verdict for a conforming BMC (16-byte pages, every index answered, data that fits 64 indices with a
 	// short last page): the entries of the records, in order; indices 0, 1, …, ⌊len/16⌋ requested once each, in order
